@@ -571,16 +571,25 @@ func (c1 intConst) binaryOp(op ast.OperatorType, c2 constant) (constant, error) 
 			return nil, errDivisionByZero
 		}
 		return intConst{i: new(big.Int).Rem(n1.i, n2.i)}, nil
-	case ast.OperatorBitAnd:
-		return intConst{i: new(big.Int).And(n1.i, n2.i)}, nil
-	case ast.OperatorBitOr:
-		return intConst{i: new(big.Int).Or(n1.i, n2.i)}, nil
-	case ast.OperatorXor:
-		return intConst{i: new(big.Int).Xor(n1.i, n2.i)}, nil
-	case ast.OperatorAndNot:
-		return intConst{i: new(big.Int).AndNot(n1.i, n2.i)}, nil
+	case ast.OperatorBitAnd, ast.OperatorBitOr, ast.OperatorXor, ast.OperatorAndNot:
+		c := intConst{i: new(big.Int)}
+		switch op {
+		case ast.OperatorBitAnd:
+			c.i.And(n1.i, n2.i)
+		case ast.OperatorBitOr:
+			c.i.Or(n1.i, n2.i)
+		case ast.OperatorXor:
+			c.i.Xor(n1.i, n2.i)
+		case ast.OperatorAndNot:
+			c.i.AndNot(n1.i, n2.i)
+		}
+		if c.overflow() {
+			return intConst{}, errors.New("constant bitwise operation overflow")
+		}
+		return c, nil
 	}
 	return nil, errInvalidOperation
+
 }
 
 func (c1 intConst) representedBy(typ reflect.Type) (constant, error) {
